@@ -1,0 +1,40 @@
+//go:build verif
+
+// Machine-checked contracts for this package (comment-only; compiled only with -tags verif,
+// and even then contributes no code).  Read by /verif/govc; see /verif/DESIGN.md.
+
+package ipam
+
+//@ -- ---------------------------------------------------------------- C20: automatic assignment from a block
+//@ -- An address is handed out (its sequence number bumped, its slot given an attribute index) only if the
+//@ -- reservation filter does not match it; nothing is handed out from a block whose affinity does not match
+//@ -- the requester when the affinity check is on (nor from a block without affinity); at most `num` addresses.
+//@ ghost c20Ord int
+//@ ghost c20Reserved bool
+//@ ghost c20AffOK bool
+//@ func (*allocationBlock).autoAssign
+//@   property C20
+//@   option safety off
+//@   option stable (*model.AllocationBlock).Affinity, (*allocationBlock).AllocationBlock
+//@   requires b != nil && b.AllocationBlock != nil && !c20AffOK && num >= 0
+//@   ghost at call affinityMatches: c20AffOK = res
+//@   ghost at call OrdinalToIP: c20Ord = arg1
+//@   ghost at call MatchesIP: c20Reserved = res
+//@   ghost at call findOrAddAttribute: check !affinityCheck || (b.AllocationBlock.Affinity != nil && c20AffOK)
+//@   ghost at call SetSequenceNumberForOrdinal: check arg1 == c20Ord && !c20Reserved ; check !affinityCheck || (b.AllocationBlock.Affinity != nil && c20AffOK)
+//@   ensures res1 == nil ==> len(res0) <= num
+//@   loop 1 invariant len(ips) <= num
+
+//@ -- ---------------------------------------------------------------- C21: release
+//@ -- A release request that fails (unknown address, stale sequence number, handle mismatch) fails wholesale:
+//@ -- the block is not touched - cooldown marking, sequence-number bumps and garbage collection happen only
+//@ -- on the success path, after every address of the request has passed its checks.
+//@ ghost c21Touched bool
+//@ func (*allocationBlock).release
+//@   property C21
+//@   option safety off
+//@   requires b != nil && !c21Touched
+//@   ghost at call addCooldownAttribute: c21Touched = true
+//@   ghost at call SetSequenceNumberForOrdinal: c21Touched = true
+//@   ghost at call garbageCollect: c21Touched = true
+//@   ensures res2 != nil ==> !c21Touched
